@@ -413,7 +413,7 @@ class PrintStatementRule(MultiLanguageLintRule):  # thailint: ignore[srp]
 
         if "// thailint: ignore" in line_text:
             after_ignore = line_text.split("// thailint: ignore")[1].split("//")[0]
-            if "[" not in after_ignore:
+            if "[" not in after_ignore and not after_ignore.startswith("-"):
                 return True
 
         return has_typescript_noqa(line_text)
